@@ -65,17 +65,18 @@ class Stop(Exception):
     self.cls = cls
 
 
-def conv(v, sk):
+def conv(v, sk, known=None):
+  known = KNOWN if known is None else known
   """the value as the property describes it (references in parse order)"""
   if v[0] == 'lit':
     return T('int', v[1])
   if v[0] == 'macro':
     return T('Ref', v[1].split('/'), 'gin.macro', True)
   if v[0] == 'list':
-    return T('L', *[conv(x, sk) for x in v[1]])
+    return T('L', *[conv(x, sk, known) for x in v[1]])
   scopes, _, sel = v[1].rpartition('/')
-  if sel in KNOWN:
-    return T('Ref', scopes.split('/') if scopes else [], KNOWN[sel], v[2])
+  if sel in known:
+    return T('Ref', scopes.split('/') if scopes else [], known[sel], v[2])
   if sel in AMBIG:
     raise Stop('KeyError')
   if covered(sel, sk):
@@ -83,8 +84,10 @@ def conv(v, sk):
   raise Stop('ValueError')
 
 
-def reference(stmts, sk):
+def reference(stmts, sk, plugins=None):
   store, order = {}, []
+  known = dict(KNOWN)
+  plugins = plugins or {}
 
   def put(scope, full, p, val):
     key = (scope, full)
@@ -96,25 +99,29 @@ def reference(stmts, sk):
     for st in stmts:
       k = st[0]
       if k == 'import':
-        if st[1] not in c16.MODULES and not (sk is True or (isinstance(sk, list) and sk[1])):
+        if st[1] in plugins:
+          for full in plugins[st[1]]:            # importing the module registers its configurables: known from here on
+            known[full] = full
+            known[full.split('.')[-1]] = full
+        elif st[1] not in c16.MODULES and not (sk is True or (isinstance(sk, list) and sk[1])):
           raise Stop('ModuleNotFoundError')
       elif k == 'macro':
-        put(st[1], 'gin.macro', 'value', conv(st[2], sk))
+        put(st[1], 'gin.macro', 'value', conv(st[2], sk, known))
       elif k == 'bind':
-        val = conv(st[4], sk)          # the value is parsed (references created) before the skip decision
+        val = conv(st[4], sk, known)          # the value is parsed (references created) before the skip decision
         sel = st[2]
-        if sel in KNOWN:
-          put(st[1], KNOWN[sel], st[3], val)
+        if sel in known:
+          put(st[1], known[sel], st[3], val)
         elif sel in AMBIG:
           raise Stop('KeyError')
         elif not covered(sel, sk):
           raise Stop('ValueError')
       elif k == 'block':
-        vals = [conv(v, sk) for _, v in st[3]]
+        vals = [conv(v, sk, known) for _, v in st[3]]
         sel = st[2]
-        if sel in KNOWN:
+        if sel in known:
           for (p, _), val in zip(st[3], vals):
-            put(st[1], KNOWN[sel], p, val)
+            put(st[1], known[sel], p, val)
         elif sel in AMBIG:
           raise Stop('KeyError')
         elif not covered(sel, sk):
@@ -237,4 +244,70 @@ class SkipEngine(Engine):
     return {'obs': obs, 'fails': fails[:3], 'nontrivial': nontrivial, 'tags': tags}
 
 
-ENGINES = [SkipEngine()]
+PLUGINS = {'c15plug_one': ['late.lfn'], 'c15plug_two': ['late2.zfn', 'late2.wfn']}
+PLUG_SKS = SKS + [['list', ['lfn']], ['set', ['lfn', 'zfn', 'u1']], ['tuple', ['late.lfn', 'wfn']]]
+
+
+class SkipPluginEngine(SkipEngine):
+  """modules whose import REGISTERS configurables (a real import with side effects through a meta-path finder): a name
+  is unknown before the import statement and known after it, within one parse.  Implementation + reference
+  interpreter only: coq/Model/Stmt.v models imports without side effects."""
+  name = 'skip-unknown-plugins'
+  model = False
+
+  def budget(self, tier):
+    return 150 if tier == 'quick' else 4000
+
+  def corpus(self):
+    st = [['bind', '', 'lfn', 'a', ['lit', '1']], ['import', 'c15plug_one'], ['bind', '', 'lfn', 'b', ['lit', '2']],
+          ['bind', '', 'f', 'a', ['ref', 'lfn', True]], ['bind', '', 'zfn', 'a', ['lit', '3']]]
+    return [{'stmts': st, 'sk': sk} for sk in PLUG_SKS]
+
+  def gen(self, rng, tier):
+    c = super().gen(rng, tier)
+    stmts = c['stmts']
+    for _ in range(rng.randint(1, 4)):
+      r = rng.random()
+      pos = rng.randint(0, len(stmts))
+      if r < 0.4:
+        stmts.insert(pos, ['import', rng.choice(list(PLUGINS))])
+      else:
+        sel = rng.choice(['lfn', 'late.lfn', 'zfn', 'wfn', 'late2.wfn'])
+        if rng.random() < 0.7:
+          stmts.insert(pos, ['bind', rng.choice(['', 's1']), sel, rng.choice(['a', 'b']), gen_val(rng, 1)])
+        else:
+          stmts.insert(pos, ['bind', '', 'f', 'a', ['ref', sel, rng.random() < 0.5]])
+    return {'stmts': stmts, 'sk': rng.choice(PLUG_SKS)}
+
+  def case(self, c):
+    d = super().case(c)
+    d['plugins'] = PLUGINS
+    return d
+
+  def to_coq(self, c):
+    return ''
+
+  def impl(self, c):
+    m = textm.TextMachine(self.case(c))
+    fails, tags = [], []
+    try:
+      obs, _ = m.run()
+      want_store, want_err = reference(c['stmts'], c['sk'], PLUGINS)
+      res = obs[0]
+      got_err = None if (isinstance(res, T) and res.tag == 'Ok') else (res.args[0] if res.tag == 'Err' else 'SyntaxError')
+      tags += ['sk:' + ('omitted' if c['sk'] is None else str(c['sk'])[:12]), 'err:%s' % got_err]
+      if got_err != want_err:
+        fails.append(('skip-outcome', 'skip_unknown=%r on %r: outcome %r, the property requires %r' %
+                      (c['sk'], render(c['stmts']), got_err, want_err)))
+      elif C.jsonable(obs[1]) != C.jsonable(want_store):
+        fails.append(('skip-configuration', 'skip_unknown=%r on %r: store %r, the property requires %r' %
+                      (c['sk'], render(c['stmts']), C.jsonable(obs[1]), C.jsonable(want_store))))
+    finally:
+      m.close()
+    imported = [i for i, st in enumerate(c['stmts']) if st[0] == 'import' and st[1] in PLUGINS]
+    late = [i for i, st in enumerate(c['stmts']) if st[0] == 'bind' and st[2].split('.')[-1] in ('lfn', 'zfn', 'wfn')]
+    nontrivial = bool(imported) and any(i > imported[0] for i in late) and isinstance(c['sk'], list)
+    return {'obs': obs, 'fails': fails[:3], 'nontrivial': nontrivial, 'tags': tags}
+
+
+ENGINES = [SkipEngine(), SkipPluginEngine()]
